@@ -12,6 +12,8 @@ def lib_source(lib, layout=0):
     exps = " ".join(e[0] if e[0] == e[1] else "(rename %s %s)" % (e[0], e[1]) for e in lib["exports"])
     forms = [S.render(f) for f in lib["body"]]
     head = "(define-library (%s)\n  (import (scheme base)%s)" % (lib["name"], imps)
+    if lib.get("bare"):
+        head = "(define-library (%s)" % lib["name"]          # no import declaration at all
     exp = "\n  (export %s)" % exps
     beg = lambda fs: "\n  (begin\n    %s)" % "\n    ".join(fs)
     if layout == 1 or len(forms) < 2:
@@ -99,11 +101,13 @@ def run(ctx):
             open(os.path.join(fdir + str(layout), lib["name"] + ".sld"), "w").write(lib_source(lib, layout))
     for mode in ("registered", "files"):
         jobs, firsts = [], []
-        for i, v in enumerate(vecs):
+        # (quick: the file-based run takes every second history; both modes go through the same loader above the factory)
+        mv = vecs if (mode == "registered" or tier != "quick") else vecs[::2]
+        for i, v in enumerate(mv):
             j, f = job_for(i, v, mode, fdir + str(i % 3))
             jobs.append(j); firsts.append(f)
         results = run_jobs(jobs, ctx.dir, tag="replay-" + mode, timeout=3000)
-        for v, res, f in zip(vecs, results, firsts):
+        for v, res, f in zip(mv, results, firsts):
             if res.get("skipped"):
                 continue
             ctx.count(evaluations=1 + len(v["hist"]), validated=1)
